@@ -191,6 +191,19 @@ CLAIMED["C20"] = dict(
          "update() with user text are outside.",
     ref="DESIGN.md section 3 C20")
 
+CLAIMED["C12"] = dict(
+    technique="CrossHair symbolic code points in blank node labels through rdflib's real Turtle / TriG parsers (label table as a linear-search map); z3 decides 'same label or not'",
+    text="Partial claim: Turtle and TriG only. Through the real TurtleParser.parse / TrigParser.parse (a record stands for the InputSource): two parse() calls with "
+         "labels 'b' + one symbolic code point each into a graph that already holds a statement about BNode('bq') - the two blank nodes are different nodes whatever "
+         "the labels, neither is the existing node, and the existing statement is still there; inside one TriG document (4 shapes: two graph blocks, default graph "
+         "then block, GRAPH keyword, one block) the same label denotes one node and different labels different nodes. N-Triples, N-Quads, RDF/XML, TriX, JSON-LD, "
+         "HexTuples are NOT covered (text scanners realise a symbolic document; a concrete experiment shows that N-Quads, JSON-LD and HexTuples merge equal labels of "
+         "separate calls - recorded in DESIGN section 6 as an observation, not as a finding of this machinery).",
+    note="Trusted base: CrossHair 0.0.110's model of Python str/int and its regex interpreter on strings with a few symbolic characters, z3; SinkParser / "
+         "TrigSinkParser are subclassed so that a parser's label table is represented by a linear-search map (one dict object is always represented by the same "
+         "map, so a table shared between parsers stays shared); labels are two characters long.",
+    ref="DESIGN.md section 3 C12")
+
 NA = {
     "C06": "document-level quad round trips run json/expat/regex scanners over text built from term contents; contents cannot be symbolic (C-level str.__new__), leaving only membership booleans = enumeration, not solver-based checking",
     "C12": "every parser keys its blank-node label map on text extracted by regex/SAX/JSON; a symbolic label is realised by that extraction (probe: no verdict in 300 s), what remains is a boolean 'same label or not'",
